@@ -1,0 +1,44 @@
+//go:build verif
+
+package standard
+
+import (
+	"context"
+
+	"github.com/attestantio/go-eth2-client/spec/bellatrix"
+	"github.com/attestantio/vouch/services/accountmanager"
+	"github.com/attestantio/vouch/services/chaintime"
+	"github.com/rs/zerolog"
+	zerologger "github.com/rs/zerolog/log"
+	majordomo "github.com/wealdtech/go-majordomo"
+)
+
+// NewForVerifC16 builds a Service that has no execution configuration yet and only the
+// collaborators needed to fetch one from a (scripted) configuration source and to answer
+// ProposerConfig: no REST daemon, no scheduler jobs, no metrics, no initial fetch.
+// Only compiled with the "verif" build tag.
+func NewForVerifC16(logLevel zerolog.Level,
+	majordomoSvc majordomo.Service,
+	configURL string,
+	chainTime chaintime.Service,
+	validatingAccountsProvider accountmanager.ValidatingAccountsProvider,
+	fallbackFeeRecipient bellatrix.ExecutionAddress,
+	fallbackGasLimit uint64,
+) *Service {
+	log := zerologger.With().Str("service", "blockrelay").Str("impl", "standard").Logger().Level(logLevel)
+
+	return &Service{
+		log:                        log,
+		majordomo:                  majordomoSvc,
+		configURL:                  configURL,
+		chainTime:                  chainTime,
+		validatingAccountsProvider: validatingAccountsProvider,
+		fallbackFeeRecipient:       fallbackFeeRecipient,
+		fallbackGasLimit:           fallbackGasLimit,
+	}
+}
+
+// VerifC16FetchExecutionConfig runs one periodic refresh of the execution configuration.
+func (s *Service) VerifC16FetchExecutionConfig(ctx context.Context) {
+	s.fetchExecutionConfig(ctx)
+}
